@@ -141,18 +141,36 @@ class Runner:
                     orig = _SM._get_individual_parameters_patient_master
                     first = str(ds.indices[0])
 
+                    import threading
+                    from leaspy.algo.personalize import scipy_minimize as _smod
+                    cur = threading.local()
+                    starts = {}
+                    o_min = _smod.minimize
+
+                    def rec_min(fun, x0, *a, **k):
+                        starts.setdefault(getattr(cur, "pid", "?"), np.array(x0, dtype=float).copy())
+                        return o_min(fun, x0, *a, **k)
+
                     def slow_first(self_, state_pat, **kw):
+                        cur.pid = str(kw.get("patient_id"))
                         r = orig(self_, state_pat, **kw)
                         if str(kw.get("patient_id")) == first:
                             time.sleep(0.5)
                         return r
                     _SM._get_individual_parameters_patient_master = slow_first
+                    _smod.minimize = rec_min
                     try:
                         with joblib.parallel_backend("threading"):
                             ip = BaseModel.load(self.path).personalize(data, "scipy_minimize", seed=self.seed, progress_bar=False,
                                                                        n_jobs=n_jobs, **SCIPY_KW)
+                        thr_starts = dict(starts)
+                        # the same request without workers: the starting points (position-indexed seeded draws) are the same
+                        starts.clear()
+                        BaseModel.load(self.path).personalize(data, "scipy_minimize", seed=self.seed, progress_bar=False, n_jobs=1, **SCIPY_KW)
+                        out["starts_same"] = bool(set(thr_starts) == set(starts) and all(np.array_equal(thr_starts[i], starts[i]) for i in starts))
                     finally:
                         _SM._get_individual_parameters_patient_master = orig
+                        _smod.minimize = o_min
                     d = ip.to_dataframe()
                     out["optim_thr"] = {i: d.loc[i].values.tolist() for i in d.index}
                     out["optim_thr_ids"] = list(ip._indices)
@@ -222,8 +240,29 @@ def run_scenario(runner: Runner, ids, data, scen, j=0, newdata="", perm=()):
             dv = dict(zip(ids, data))
             rec["optim_same"] = all(_same(base["optim"][i], new["optim"][i], False, tol=tolv) for i in unchanged if dv[i] != "dbad")
             if "optim_thr" in new:
-                rec["optim_same"] = rec["optim_same"] and new["optim_thr_ids"] == new["optim_ids"] and all(
+                rec["optim_same"] = rec["optim_same"] and new.get("starts_same", True) and new["optim_thr_ids"] == new["optim_ids"] and all(
                     _same(base["optim"][i], new["optim_thr"][i], False, tol=tolv) for i in unchanged if dv[i] != "dbad")
     except Exception as e:  # noqa: BLE001
         rec["status"] = f"{type(e).__name__}: {str(e)[:150]}"
     return rec
+
+
+def reused_algorithm_independent(runner: Runner):
+    """An algorithm object that already served another cohort gives the individuals of the next cohort what a fresh object gives
+    them (nothing learnt on other individuals is carried over to them).  Returns (ok, detail)."""
+    from leaspy.algo import AlgorithmSettings, algorithm_factory
+    out = {}
+    with warnings.catch_warnings():
+        warnings.simplefilter("ignore")
+        target = runner.data(table([("8", "d0"), ("9", "d0"), ("10", "d1")], runner.dim, events=runner.events))
+        decoys = {"X": [("11", "d1"), ("8", "d1"), ("9", "d1")], "Y": [("10", "d0"), ("11", "d0"), ("9", "d1")]}
+        for label in ("fresh", "X", "Y"):
+            algo = algorithm_factory(AlgorithmSettings("mean_posterior", n_iter=40, seed=runner.seed, progress_bar=False))
+            model = BaseModel.load(runner.path)
+            if label != "fresh":
+                algo.run(model, Dataset(runner.data(table(decoys[label], runner.dim, events=runner.events))))
+            res = algo.run(model, Dataset(target))
+            ip = res[0] if isinstance(res, tuple) else res
+            out[label] = ip.to_dataframe().sort_index().values
+    ok = bool(np.array_equal(out["X"], out["Y"]) and np.array_equal(out["X"], out["fresh"]))
+    return ok, {k: np.round(v, 4).tolist() for k, v in out.items()}
